@@ -19,7 +19,22 @@ func runC31(r *Report) {
 	p := r.P
 	mapStores := func(fn *ssa.Function) []Site {
 		var out []Site
-		for _, f := range WithAnons(fn) {
+		fs := WithAnons(fn)
+		// an unexported helper of the package that is handed the result map fills it on the caller's behalf
+		for _, cs := range Sites(fn, func(in ssa.Instruction) bool { _, ok := in.(*ssa.Call); return ok }) {
+			c := cs.Instr.(*ssa.Call)
+			h := c.Call.StaticCallee()
+			if h == nil || h.Blocks == nil || h.Pkg != fn.Pkg || isExportedName(h.Name()) || h == fn {
+				continue
+			}
+			for _, a := range c.Call.Args {
+				if t := shortType(a.Type()); t == "map[string]rueidis.RedisMessage" || t == "map[string]error" {
+					fs = append(fs, h)
+					break
+				}
+			}
+		}
+		for _, f := range fs {
 			out = append(out, Sites(f, func(in ssa.Instruction) bool {
 				mu, ok := in.(*ssa.MapUpdate)
 				if !ok {
